@@ -43,8 +43,8 @@ fs = [r.split(" | ")[-3].strip() for r in rows]
 yes, pins, no = fs.count("yes"), fs.count("pins only"), fs.count("no")
 now_missed = sum("**missed**" in r for r in rows)
 rej = len(glob.glob(os.path.join(ROOT, "seeded_rejected", "*", "patch.diff")))
-stats = (f"{n} changes are kept (one per property and round, several rounds; {rej} further change(s) were rejected because the pinned suite "
-         f"does not pass with them, see `seeded_rejected/`). When first evaluated, {yes} were caught with a failing input, {pins} only through a broken "
+stats = (f"{n} changes are kept (one per property and round, several rounds; {rej} further change(s) were rejected — the pinned suite does not pass "
+         f"with one, the other no longer breaks its property on the repaired tree (it relied on the genuine defect F25) —, see `seeded_rejected/`). When first evaluated, {yes} were caught with a failing input, {pins} only through a broken "
          f"source pin (`no-failing-input-found`), and {no} were missed; after the additions below "
          + ("all of them are" if now_missed == 0 else f"all but {now_missed} are") +
          " caught by the quick tier of their own property's check with a failing input (`tools/regress_seeded.sh` re-evaluates every kept change against "
